@@ -38,7 +38,7 @@ POOL = [
     None, True, False, 0, 1, 7, 8, -1, 1.5, "", "x", "dollarmath", "myst_parser.config.main._test_slug_func", "no.such.func", "nodots",
     "myst_parser.config.main.no_such_attr", [], ["x"], ["dollarmath"], ["dollarmath", "nope"], [1], ("a", "b"), ["{", "}"], ["ab", "c"], {"x"}, {"dollarmath"},
     {}, {"x": "y"}, {"x": 1}, {"x": None}, {1: "y"}, {"http": {"url": "u", "title": "t", "classes": ["c"]}}, {"http": {"url": 1}},
-    {"http": {"classes": "abc"}}, {"http": {"classes": [1]}}, {"http": {"title": 2}}, {"http": 5}, {"k": ["u", None]}, {"k": ["u", "p"]}, {"k": ["u"]}, {"k": [1, None]},
+    {"http": {"classes": "abc"}}, {"http": {"classes": [1]}}, {"http": {"title": 2}}, {"http": 5}, {"http": 0}, {"http": False}, {"http": []}, {"http": 0.0}, {"k": ["u", None]}, {"k": ["u", "p"]}, {"k": ["u"]}, {"k": [1, None]},
     {"k": ["u", 3]}, {"k": "u"},
 ]
 
@@ -501,5 +501,67 @@ class EffectSystem(System):
                    stats={"no_effect": int(a == c)})
 
 
+SX_DOCS = {
+    "fm-figure-md": "---\nmyst:\n  heading_anchors: 2\n---\n# T\n\n:::{figure-md}\n<img src=\"x.png\" alt=\"a\">\n\ncap\n:::\n",
+    "figure-md": "# T\n\n:::{figure-md}\n<img src=\"x.png\" alt=\"a\">\n\ncap\n:::\n",
+    "fm-ext": "---\nmyst:\n  enable_extensions: [deflist]\n  url_schemes: [http]\n  substitutions: {k: local}\n  html_meta: {a: b}\n---\n# T\n\nTerm\n: d\n\n{{k}} [l](http://x)\n",
+    "fm-bad": "---\nmyst:\n  enable_extensions: [deflist, nope]\n  heading_anchors: 99\n---\n# T\n",
+    "plain": "# T\n\n<img src=\"y.png\">\n\n{{k}}\n",
+}
+
+
+class SphinxGlobalSystem(System):
+    """the configuration object shared by all documents of a Sphinx build (env.myst_config) is never modified by reading a document"""
+
+    name = "sphinx-global"
+    fork_per_case = True
+    chunk = 1
+
+    def __init__(self, tier):
+        super().__init__(tier)
+        self.description = (f"every sequence of <= 2 of {len(SX_DOCS)} documents (front matter overrides, figure-md with and without front matter, invalid front matter) read by one "
+                            "in-process Sphinx application: deep snapshot of env.myst_config identical before and after every read")
+
+    def prepare(self, ctx):
+        self.root = ctx.scratch / "c13sx"
+        self.root.mkdir(exist_ok=True)
+
+    def bounds(self):
+        return {"documents": len(SX_DOCS), "depth": 2}
+
+    def rule(self):
+        return "one case = one read sequence in a fresh application; non-trivial = always"
+
+    def cases(self):
+        names = list(SX_DOCS)
+        for a in names:
+            yield [a]
+        for a, b in itertools.product(names, repeat=2):
+            yield [a, b]
+
+    def run(self, seq):
+        import hashlib
+        import shutil
+
+        from ..drivers import SphinxDriver
+
+        root = self.root / hashlib.sha1(repr(seq).encode()).hexdigest()[:10]
+        d = SphinxDriver(root, conf="myst_enable_extensions=['colon_fence','substitution']\nmyst_substitutions={'k':'GLOBAL'}\nsuppress_warnings=['image.not_readable','toc.not_included']\n")
+        viol = []
+        try:
+            snap = lambda: repr(sorted((k, canon(v)) for k, v in d.app.env.myst_config.as_dict().items()))  # noqa: E731
+            s0 = snap()
+            for i, name in enumerate(seq):
+                d.read(f"d{i}", SX_DOCS[name])
+                s1 = snap()
+                if s1 != s0 and not viol:
+                    viol.append(violation("global-mutated", {"clause": "global-mutated", "field": "sphinx-env", "entry": name},
+                                          f"env.myst_config changed while reading document {name!r} (sequence {seq}): before {s0[:300]} after {s1[:300]}"))
+        finally:
+            d.close()
+            shutil.rmtree(root, ignore_errors=True)
+        return Obs(digest=tuple(seq), violations=viol, transitions=len(seq), validated=len(seq))
+
+
 def systems(tier):
-    return [ValueSystem(tier), PairSystem(tier), StringSystem(tier), EffectSystem(tier)]
+    return [ValueSystem(tier), PairSystem(tier), StringSystem(tier), EffectSystem(tier), SphinxGlobalSystem(tier)]
